@@ -83,6 +83,8 @@ pub fn prop() -> HistProp {
         profile: CfgProfile::general(),
         weights: {
             let mut w = Weights::trading();
+            // funding drains: the oracle is set so that the next settlement consumes about half / all / several times a holder's margin
+            w.drain = 3;
             w.rewire = 2;
             w.vcfg = 1;
             w.setopen = 1;
